@@ -191,8 +191,12 @@ func runCheck(P *Program, DB *ContractDB, prop, tier string, only string) *check
 		}
 		res.reports = append(res.reports, rep)
 		res.funcs = append(res.funcs, name)
+		seenErr := map[string]bool{}
 		for _, e := range rep.Errors {
-			res.errors = append(res.errors, "contract-unresolved: "+e)
+			if !seenErr[e] {
+				seenErr[e] = true
+				res.errors = append(res.errors, "contract-unresolved: "+e)
+			}
 		}
 		obls = append(obls, rep.Obligations...)
 	}
@@ -440,8 +444,18 @@ func report(P *Program, DB *ContractDB, res *checkResult, prop, tier string, wri
 		case "vacuity-ok":
 			nVac++
 		case "vacuous":
-			fmt.Printf("BROKEN-CHECK: %s is refutable: the precondition/axioms of %s are contradictory\n", r.Name, r.Func)
-			broken = true
+			// a failed obligation is assumed afterwards, which can make later points
+			// unreachable: only a function without failed obligations is vacuous
+			hasFailed := false
+			for j := range res.records {
+				if res.records[j].Func == r.Func && res.records[j].Status == "failed" {
+					hasFailed = true
+				}
+			}
+			if !hasFailed {
+				fmt.Printf("BROKEN-CHECK: %s is refutable: the precondition/axioms of %s are contradictory\n", r.Name, r.Func)
+				broken = true
+			}
 		case "solver-error":
 			fmt.Printf("BROKEN-CHECK: solver error on %s: %v\n", r.Name, r.Raw)
 			broken = true
